@@ -28,8 +28,9 @@ PushT(i) ==
        ELSE ring' = b /\ UNCHANGED <<queue, kept, dropped, lostc>>
     /\ UNCHANGED <<rec, polClosed, workerAlive>>
 
+\* (with metrics disabled the counters read 0: only the batch and the queue are compared)
 PostOK == /\ Len(ring') = Ev.post.ring /\ Len(queue') = Ev.post.polq
-          /\ kept' = Ev.post.met.keepGets /\ dropped' = Ev.post.met.dropGets
+          /\ ~Ev.nomet => (kept' = Ev.post.met.keepGets /\ dropped' = Ev.post.met.dropGets)
 
 Min2(a, b) == IF a < b THEN a ELSE b
 EstOf(p, i) == p.est[CHOOSE j \in 1 .. Len(p.est) : p.est[j][1] = i][2]
@@ -76,7 +77,7 @@ Other == { "InsBegin", "InsSend", "GetTtl", "RemStore", "RemSend", "RemSendA", "
 \* every other event leaves the recording state alone -- and the implementation must agree
 TOther == /\ l <= Len(Rec) /\ Ev.ev \in Other /\ l' = l + 1
           /\ UNCHANGED <<rvars, bi, qcap, cacheClosed, nc, applied>>
-          /\ (Ev.ev # "Finalize") => (Len(ring) = Ev.post.ring /\ kept = Ev.post.met.keepGets /\ dropped = Ev.post.met.dropGets)
+          /\ (Ev.ev \notin {"Finalize", "Panic"}) => (Len(ring) = Ev.post.ring /\ (~Ev.nomet => (kept = Ev.post.met.keepGets /\ dropped = Ev.post.met.dropGets)))
 
 TNext == TNew \/ TLookup \/ TRecv \/ TBump \/ TClrPolicy \/ TClrMetrics \/ TPolFlag \/ TLStop \/ TClsFlag \/ TOther
 TSpec == TInit /\ [][TNext]_tvars
